@@ -380,7 +380,10 @@ class Seams:
             return subprocess.CompletedProcess(run_args, 1)
         with open(target, "r", encoding="utf-8", newline="") as f:
             text = f.read()
-        text = text.replace("\t", "    ") + ("\n/* formatted */\n" if not target.endswith((".py", ".html")) else "\n")
+        # like real formatters and linters (include-guard fixers, banner writers) the fake one is sensitive to the NAME
+        # of the file it is given: the base name goes into the text it appends
+        base = os.path.basename(target)
+        text = text.replace("\t", "    ") + ("\n/* formatted %s */\n" % base if not target.endswith((".py", ".html")) else "\n# formatted %s\n" % base if target.endswith(".py") else "\n<!-- formatted %s -->\n" % base)
         if self.plan.get("extprog") == "rename":
             # a formatter that writes a temporary file and renames it over the original (new inode, default mode)
             tmp = target + ".fmt-tmp"
